@@ -15,6 +15,18 @@ TOPO_CLAUSES = {"RegionOrder", "SegmentCount", "RegionSizes", "Kinds", "ConnWell
                 "DyIsTwoPiOverCore", "Theta", "ThetaExact"}
 CLAUSE_PROP = {c: "C08" for c in TOPO_CLAUSES}
 CLAUSE_PROP.update({"YGroupsStart": "C05"})
+CLAUSE_PREFIX = {"InverseOK": "C02", "Jacobian": "C02", "ClosedForm": "C02", "OrthogonalZero": "C02", "G23": "C02", "Displacement": "C02", "Dphidy": "C06"}
+
+
+def clause_prop(c):
+    if c in CLAUSE_PROP:
+        return CLAUSE_PROP[c]
+    for k, v in CLAUSE_PREFIX.items():
+        if c.startswith(k):
+            return v
+    return None
+
+
 CLAUSE_PROP.update({c: "C01" for c in ("OnSurface", "PsixyIsPsi", "ConstAlongY", "PinnedAreXpoints", "RadialGridShared")})
 
 
@@ -107,7 +119,7 @@ def run(v, pid, tier, names=None, mutate=None, extra_cfgs=None, min_topos=2):
         v.add_case("grid %s topo=%s nx=%s ny=%s G=%s orth=%s" % (t["name"], t["topo"], t["nx"], t["ny"], t["G"], t["orth"]))
         v.add_eval(t["NX"] * t["NY"])
         for cl, loc in sorted(failed.get(t["id"], ())):
-            if CLAUSE_PROP.get(cl) != pid:
+            if clause_prop(cl) != pid:
                 continue
             key = "%s engine=grid clause=%s loc=%s grid=%s" % (pid, cl, loc, t["name"])
             v.violation(key, "clause %s (%s) of Trace_Grid fails on grid %s (topo=%s nx=%s ny=%s G=%s orthogonal=%s)"
